@@ -493,12 +493,363 @@ pub fn fam_partial(r: &mut Rng) -> Vec<Prog> {
     }]
 }
 
+/// a literal of type `ty` (first enumerated value, or a random one)
+fn lit(g: &mut G, ty: &GTy) -> GVal {
+    let vs = g.values(ty, 2);
+    vs[g.r.usize(vs.len())].clone()
+}
+
+/// near miss of a type: one leaf flipped, a field dropped / added, a variant dropped / added
+fn near_miss(t: &GTy, g: &mut G) -> GTy {
+    match t {
+        GTy::Int => GTy::Bin,
+        GTy::Bin => GTy::Int,
+        GTy::Tup(n, fs) if fs.is_empty() => GTy::Tup(Some(if n.as_deref() == Some("A") { "B".into() } else { "A".into() }), vec![]),
+        GTy::Tup(n, fs) => {
+            let mut fs2 = fs.clone();
+            match g.r.below(4) {
+                0 if fs2.len() > 1 => {
+                    fs2.pop();
+                }
+                1 => fs2.push((fs2[0].0.as_ref().map(|_| "zz".to_string()), GTy::Int)),
+                2 => return GTy::Tup(Some("Z".into()), fs2),
+                _ => {
+                    let i = g.r.usize(fs2.len());
+                    fs2[i].1 = near_miss(&fs2[i].1.clone(), g);
+                }
+            }
+            GTy::Tup(n.clone(), fs2)
+        }
+        GTy::Union(vs) => {
+            let mut vs2 = vs.clone();
+            match g.r.below(3) {
+                0 if vs2.len() > 1 => {
+                    let i = g.r.usize(vs2.len());
+                    vs2.remove(i);
+                    if vs2.len() == 1 {
+                        return vs2[0].clone();
+                    }
+                }
+                1 => {
+                    let i = g.r.usize(vs2.len());
+                    vs2[i] = near_miss(&vs2[i].clone(), g);
+                }
+                _ => vs2.push(tag("Z")),
+            }
+            GTy::Union(vs2)
+        }
+        other => other.clone(),
+    }
+}
+
+/// D: declared return types. The body's branches produce literals of known types; the declared
+/// type is their union — exact, or a near miss (variant dropped, leaf flipped, nil forgotten), which
+/// the compiler must reject. An accepted near miss shows up as a value outside the declared type.
+pub fn fam_return(r: &mut Rng) -> Vec<Prog> {
+    let mut g = G::new(r);
+    let ty = g.union_ty(1);
+    let k = 2 + g.r.usize(2);
+    let mut rtys: Vec<GTy> = vec![];
+    for _ in 0..k {
+        let t = match g.r.below(4) {
+            0..=1 => g.leaf_ty(),
+            2 => g.tuple_ty(0),
+            _ => {
+                let a = g.leaf_ty();
+                let b = g.leaf_ty();
+                if a == b { a } else { GTy::Union(vec![a, b]) }
+            }
+        };
+        if !rtys.contains(&t) {
+            rtys.push(t);
+        }
+    }
+    let catch_all = g.r.chance(2, 3);
+    let mut branches = vec![];
+    for (i, rt) in rtys.iter().enumerate() {
+        let v = lit(&mut g, rt);
+        if i + 1 == rtys.len() && catch_all {
+            branches.push(t(&v.src()));
+        } else {
+            let mut binds = vec![];
+            let (p, _) = g.pat(&ty, 1, &mut binds, false);
+            branches.push(t(&format!("={p} => {}", v.src())));
+        }
+    }
+    let exact = GTy::Union(rtys.clone());
+    let declared = match g.r.below(6) {
+        0..=1 => {
+            g.feats.insert("return:exact".into());
+            exact.clone()
+        }
+        2 => {
+            g.feats.insert("return:superset".into());
+            let mut vs = rtys.clone();
+            vs.push(tag("Z"));
+            GTy::Union(vs)
+        }
+        _ => {
+            g.feats.insert("return:near-miss".into());
+            near_miss(&exact, &mut g)
+        }
+    };
+    let declared = match &declared {
+        GTy::Union(vs) if vs.len() == 1 => vs[0].clone(),
+        d => d.clone(),
+    };
+    if !catch_all {
+        g.feats.insert("return:maybe-nil-body".into());
+    }
+    let f = cat(vec![t(&format!("#{} -> {} ", ty.param_src(), declared.src_n(true))), Node::Block(branches)]);
+    let w = t(&format!("#{} {{ $ }}", ty.param_src()));
+    let vals = g.values(&ty, 2);
+    let args = pick_args(g.r, vals, 5);
+    let aliases = g.aliases_for(&[&ty]);
+    let wide = g.r.chance(1, 2);
+    vec![Prog {
+        family: "return",
+        features: g.feats.clone(),
+        aliases,
+        guards: vec![],
+        defs: vec![("f".into(), f), ("w".into(), w)],
+        main: t(if wide { "{ARG} w f" } else { "{ARG} f" }),
+        args,
+        generic_fn: None,
+    }]
+}
+
+/// F: closures and higher-order functions — function subtyping at a higher-order parameter
+/// (contravariant parameter, covariant result: supertypes / subtypes / near misses), closures
+/// capturing pattern bindings, and two functions sharing one callable type of which only one
+/// dispatches (case tables looked up by type).
+pub fn fam_hof(r: &mut Rng) -> Vec<Prog> {
+    let mut g = G::new(r);
+    match g.r.below(3) {
+        0 => {
+            // run = #[#Pd -> Rd] { =[h] => V h USE }, called with h : #Ph -> Rh
+            g.feats.insert("hof:function-subtyping".into());
+            let pd = if g.r.chance(1, 2) { g.leaf_ty() } else { g.union_ty(0) };
+            let rd = if g.r.chance(1, 2) { g.leaf_ty() } else { g.union_ty(0) };
+            // the function actually passed
+            let ph = match g.r.below(4) {
+                0 => pd.clone(),
+                1 => GTy::Union(vec![pd.clone(), tag("Z")]), // accepts more: fine
+                _ => near_miss(&pd, &mut g),                 // accepts something else: must be rejected
+            };
+            let rh = match g.r.below(4) {
+                0 => rd.clone(),
+                1 => match &rd {
+                    GTy::Union(vs) => vs[0].clone(), // returns less: fine
+                    o => o.clone(),
+                },
+                _ => near_miss(&rd, &mut g),
+            };
+            // h demands its parameter type and returns a literal of its result type
+            let rv = lit(&mut g, &rh);
+            let use_p = g.demanding_use(t("$"), &ph.clone(), 1);
+            let h = cat(vec![t(&format!("#{} {{ ", ph.param_src())), use_p, t(&format!(" =u, {} }}", rv.src()))]);
+            let av = lit(&mut g, &pd);
+            let use_r = g.demanding_use(t("res"), &rd.clone(), 1);
+            let run = cat(vec![
+                t(&format!("#[#{} -> {}] {{ =[k] => {} k =res, W[", pd.src_n(true), rd.src_n(true), av.src())),
+                use_r,
+                t("] }"),
+            ]);
+            vec![Prog {
+                family: "hof",
+                features: g.feats.clone(),
+                aliases: vec![],
+                guards: vec![],
+                defs: vec![("h".into(), h), ("run".into(), run)],
+                main: t("[&h] run"),
+                args: vec![Arg { src: String::new(), aligned_src: None, note: String::new() }],
+                generic_fn: None,
+            }]
+        }
+        1 => {
+            // closure capturing a pattern binding
+            g.feats.insert("hof:closure-capture".into());
+            let t1 = g.union_ty(0);
+            let t2 = g.leaf_ty();
+            let body_use = {
+                let vs = t1.variants();
+                let v = vs[g.r.usize(vs.len())].clone();
+                // optimistic: the captured value used as one variant after an earlier branch
+                let u = g.demanding_use(t("c"), &v, 1);
+                cat(vec![t("W["), u, t(", $]")])
+            };
+            let mut binds = vec![];
+            let (p, _) = g.pat(&t1, 1, &mut binds, false);
+            let mk = cat(vec![
+                t(&format!("#{} {{ | ={p} => #{} {{ V[$] }} | =c => #{} {{ ", t1.param_src(), t2.param_src(), t2.param_src())),
+                body_use,
+                t(" } }"),
+            ]);
+            let a2 = lit(&mut g, &t2);
+            let vals = g.values(&t1, 1);
+            let args = pick_args(g.r, vals, 4);
+            vec![Prog {
+                family: "hof",
+                features: g.feats.clone(),
+                aliases: vec![],
+                guards: vec![],
+                defs: vec![("mk".into(), mk)],
+                main: t(&format!("{{ARG}} mk =h, {} h", a2.src())),
+                args,
+                generic_fn: None,
+            }]
+        }
+        _ => {
+            // two functions with the same callable type; only `d` is a pure parameter dispatch
+            g.feats.insert("hof:shared-callable-type".into());
+            let a = tag("A");
+            let b = tag("B");
+            let r1 = g.leaf_ty();
+            let mut r2 = g.leaf_ty();
+            if r2 == r1 {
+                r2 = if r1 == GTy::Int { GTy::Bin } else { GTy::Int };
+            }
+            let (v1, v2) = (lit(&mut g, &r1), lit(&mut g, &r2));
+            let (w1, w2) = (lit(&mut g, &r1), lit(&mut g, &r2));
+            let p = GTy::Union(vec![a, b]);
+            let d = t(&format!("#{} {{ | =A => {} | =B => {} }}", p.param_src(), v1.src(), v2.src()));
+            // same result union in the same order, but branch selection is not a pure dispatch
+            let n = t(&format!("#{} {{ | =x, x =B => {} | {} }}", p.param_src(), w1.src(), w2.src()));
+            let rty = GTy::Union(vec![r1, r2]);
+            let ap = t(&format!("#[#{} -> {}, {}] {{ =[k, a] => a k }}", p.src_n(true), rty.src_n(true), p.src_n(true)));
+            let which = if g.r.chance(1, 2) { "n" } else { "d" };
+            let main = match g.r.below(2) {
+                0 => format!("[&{which}, {{ARG}}] ap"),
+                _ => format!("{{ARG}} {which}"),
+            };
+            vec![Prog {
+                family: "hof",
+                features: g.feats.clone(),
+                aliases: vec![],
+                guards: vec![],
+                defs: vec![("d".into(), d), ("n".into(), n), ("ap".into(), ap)],
+                main: t(&main),
+                args: vec![
+                    Arg { src: "A".into(), aligned_src: None, note: String::new() },
+                    Arg { src: "B".into(), aligned_src: None, note: String::new() },
+                ],
+                generic_fn: None,
+            }]
+        }
+    }
+}
+
+/// pins and repeated identifiers in tuple patterns (equality requirements) crossed with the
+/// per-field complement narrowing of later branches.
+pub fn fam_repeat(r: &mut Rng) -> Vec<Prog> {
+    let mut g = G::new(r);
+    let leaf = if g.r.chance(1, 2) { GTy::Int } else { GTy::Bin };
+    let n = GTy::Union(vec![leaf.clone(), tup(Some("K"), vec![(None, leaf.clone())])]);
+    let pty = GTy::Tup(None, vec![(None, n.clone()), (None, n.clone())]);
+    let nb = 1 + g.r.usize(3);
+    let mut branches = vec![];
+    for _ in 0..nb {
+        let tagname = format!("R{}", 1 + g.r.usize(90));
+        let b = match g.r.below(7) {
+            0 => {
+                g.feats.insert("repeat:wrapped-then-bare".into());
+                format!("=[K[a], {}]{} => {tagname}[a]", unrepeat_choice("a", "a2"), unrepeat_choice("", ", a2 =&a"))
+            }
+            1 => {
+                g.feats.insert("repeat:bare-then-wrapped".into());
+                format!("=[a, K[{}]]{} => {tagname}[a]", unrepeat_choice("a", "a2"), unrepeat_choice("", ", a2 =&a"))
+            }
+            2 => {
+                g.feats.insert("repeat:both-bare".into());
+                format!("=[a, {}]{} => {tagname}[a]", unrepeat_choice("a", "a2"), unrepeat_choice("", ", a2 =&a"))
+            }
+            3 => {
+                g.feats.insert("repeat:pin".into());
+                format!("=[K[a], _], $.1 =&a => {tagname}[a]")
+            }
+            4 => format!("=[K[a], _] => {tagname}[a]"),
+            5 => format!("=[_, K[b]] => {tagname}[b]"),
+            _ => {
+                g.feats.insert("repeat:literal".into());
+                let l = if leaf == GTy::Int { "1" } else { "0x00" };
+                format!("=[K[{l}], _] => {tagname}")
+            }
+        };
+        branches.push(t(&b));
+    }
+    // final branch: both elements used as the leaf type (sound only if every K was peeled soundly)
+    let u1 = g.demanding_use(t("x"), &leaf, 1);
+    let u2 = g.demanding_use(t("y"), &leaf, 1);
+    let last = match g.r.below(3) {
+        0 => cat(vec![t("=[x, y] => W["), u1, t(", "), u2, t("]")]),
+        1 => cat(vec![t("=[x, y] => W["), u1, t(", y]")]),
+        _ => t("=[x, y] => W[x, y]"),
+    };
+    branches.push(last);
+    let f = cat(vec![t(&format!("#{} ", pty.param_src())), Node::Block(branches)]);
+    let w = t(&format!("#{} {{ $ }}", pty.param_src()));
+    let vals = g.values(&pty, 2);
+    let args = pick_args(g.r, vals, 6);
+    let wide = g.r.chance(1, 2);
+    vec![Prog {
+        family: "repeat",
+        features: g.feats.clone(),
+        aliases: vec![],
+        guards: vec![],
+        defs: vec![("f".into(), f), ("w".into(), w)],
+        main: t(if wide { "{ARG} w f" } else { "{ARG} f" }),
+        args,
+        generic_fn: None,
+    }]
+}
+
+/// H: spawn with an argument (the spawned function demands its parameter type) and await; runs
+/// under the deterministic simulator. The argument comes from the parameter type or a near miss
+/// (which `emit_arg_spawn` must reject).
+pub fn fam_spawn(r: &mut Rng) -> Vec<Prog> {
+    let mut g = G::new(r);
+    let pty = match g.r.below(3) {
+        0 => g.leaf_ty(),
+        1 => g.tuple_ty(0),
+        _ => g.union_ty(0),
+    };
+    let aty = match g.r.below(3) {
+        0 => pty.clone(),
+        _ => near_miss(&pty, &mut g),
+    };
+    g.feats.insert(if aty == pty { "spawn:exact-arg".into() } else { "spawn:near-miss-arg".into() });
+    let body = match &pty {
+        GTy::Union(_) => g.dispatch_block(&pty, 1),
+        _ => {
+            let u = g.demanding_use(t("$"), &pty, 1);
+            cat(vec![t("{ W["), u, t("] }")])
+        }
+    };
+    let f = cat(vec![t(&format!("#{} ", pty.param_src())), body]);
+    let vals = g.values(&aty, 1);
+    let args = pick_args(g.r, vals, 3);
+    vec![Prog {
+        family: "spawn",
+        features: g.feats.clone(),
+        aliases: vec![],
+        guards: vec![],
+        defs: vec![("f".into(), f)],
+        main: t("p = {ARG} @f, !p"),
+        args,
+        generic_fn: None,
+    }]
+}
+
 pub fn generate(r: &mut Rng) -> Vec<Prog> {
-    match r.below(20) {
+    match r.below(30) {
         0..=7 => fam_dispatch(r),
         8..=11 => fam_variable(r),
         12..=15 => fam_generic(r),
         16..=17 => fam_tail(r),
-        _ => fam_partial(r),
+        18..=19 => fam_partial(r),
+        20..=22 => fam_return(r),
+        23..=25 => fam_hof(r),
+        26..=27 => fam_repeat(r),
+        _ => fam_spawn(r),
     }
 }
